@@ -1016,7 +1016,7 @@ def desugar_any_find_map(text, log, where):
         hit = None
         for i in range(1, len(toks) - 8):
             if toks[i].text == "iter" and toks[i - 1].text == "." and toks[i + 1].text == "(" and toks[i + 2].text == ")" \
-                    and toks[i + 3].text == "." and toks[i + 4].text in ("any", "find_map") and toks[i + 5].text == "(" and toks[i + 6].text == "|":
+                    and toks[i + 3].text == "." and toks[i + 4].text in ("any", "find_map", "find") and toks[i + 5].text == "(" and toks[i + 6].text == "|":
                 mclose = match_close(toks, i + 5)
                 pe = i + 7
                 while toks[pe].text != "|":
@@ -1036,10 +1036,14 @@ def desugar_any_find_map(text, log, where):
         body = text[toks[pe].end:toks[mclose].start].strip()
         if kind == "any":
             repl = "{ let mut verif_any = false;\nfor %s in %s.iter() {\nverif_any = verif_any || { %s };\n}\nverif_any }" % (pat, recv, body)
+        elif kind == "find":
+            # R17f: find(|PAT| P) -- the predicate sees a reference to the item, the result is the first item satisfying it
+            repl = ("{ let mut verif_found = None;\nfor verif_x in %s.iter() {\nif verif_found.is_none() && { let %s = &verif_x; %s } { verif_found = Some(verif_x); }\n}\nverif_found }"
+                    % (recv, pat, body))
         else:
             repl = "{ let mut verif_found = None;\nfor %s in %s.iter() {\nif verif_found.is_none() { verif_found = %s; }\n}\nverif_found }" % (pat, recv, body)
         text = text[:toks[r].start] + repl + text[toks[mclose].end:]
-        log.append(("R17d" if kind == "any" else "R17e", where, "iter().%s(..) over %s desugared into a loop" % (kind, recv)))
+        log.append(({"any": "R17d", "find_map": "R17e", "find": "R17f"}[kind], where, "iter().%s(..) over %s desugared into a loop" % (kind, recv)))
 
 
 def desugar_map_fold(text, log, where):
